@@ -10,12 +10,12 @@ PARITY = ["DemographicParity", "TruePositiveRateParity", "FalsePositiveRateParit
 
 
 def check(ctx):
-    r061_matrix(ctx)
-    r062_gamma_bound(ctx)
-    r063_events(ctx)
-    r064_null(ctx)
-    r065_losses(ctx)
-    r066_loss_moment_wiring(ctx)
+    ctx.guard(r061_matrix, ctx)
+    ctx.guard(r062_gamma_bound, ctx)
+    ctx.guard(r063_events, ctx)
+    ctx.guard(r064_null, ctx)
+    ctx.guard(r065_losses, ctx)
+    ctx.guard(r066_loss_moment_wiring, ctx)
 
 
 # ----------------------------------------------------------------------------- R06.1
